@@ -71,4 +71,13 @@ def PyMatch.group0 (pm : PyMatch) : Str := (pm.subject.drop pm.m.start).take (pm
 /-- `match.groupdict()` -/
 def PyMatch.groupdict (pm : PyMatch) : PyDict (Option Str) := BV.groupdict pm.re pm.m
 
+/-- `try: BODY except …: HANDLER` followed by more statements, for a BODY that does not `return`: `onOk` continues
+    after a BODY that ran through (with the variables it assigned), `onErr` decides about a BODY that raised.
+    Exceptions raised by the statements AFTER the `try` are not seen by the handler. -/
+def pyTry {α β : Type} (body : Except PErr α) (onOk : α → Except PErr β) (onErr : PErr → Except PErr β) :
+    Except PErr β :=
+  match body with
+  | .ok a => onOk a
+  | .error e => onErr e
+
 end BV
